@@ -44,7 +44,7 @@ Judge(ev) ==
                 sub  == AtPath(f, a.pt)
                 full == Len(a.path) + Len(a.pt) = B.depth
                 expd == IF sub.k # "N" THEN sub
-                        ELSE IF a.mode = "alloc" THEN (IF full THEN Leaf(0) ELSE Fib(<<>>)) ELSE Leaf(7)
+                        ELSE IF a.mode = "alloc" THEN (IF full THEN Leaf(0) ELSE Fib(<<>>)) ELSE IF a.mode = "dflt0" THEN Leaf(0) ELSE Leaf(7)
             IN Fails(<< pure,
                  <<"P:C03:read-value", expd.k = "L" => (ev.res.k = "L" /\ ev.res.v = expd.v)>>,
                  <<"P:C03:prefix-subfiber", expd.k = "F" => (ev.res.k = "F" /\ NoForeign(ev.res) /\ Content(Abs(ev.res), 0) = Content(expd, 0))>> >>)
@@ -57,6 +57,13 @@ Judge(ev) ==
             \* the handle is stale: a fiber assignment / clear since step a.h replaced the payload object it referred to.  The property speaks
             \* about handles that alias the STORED payload; a write through a stale one must simply leave the tree alone.
             Fails(<< <<"S:stale-handle-frame", m1 = m0>> >>)
+       [] a.op = "poswrite" ->
+            \* an in-place update through a position (f[p] += v) is an update of the STORED payload: the value changes, the box does not, so a handle
+            \* obtained earlier at the point keeps aliasing it
+            Fails(<< <<"P:C03:write-visible", m1 = Override(m0, a.pt, WriteVal(a.kind, MapGet(m0, a.pt), a.v))>>,
+                     <<"P:C03:ref-creates-path", Stored(post) = Stored(st) \cup Prefixes(a.pt)>>,
+                     <<"P:C03:alias-survives-inplace", IdAt(last.root, a.pt) # -1 => IdAt(root, a.pt) = IdAt(last.root, a.pt)>>,
+                     <<"S:post-conform", post = Apply(st, B.depth, a).tree>> >>)
        [] a.op \in {"write", "hwrite"} ->
             Fails(<< <<"P:C03:write-visible", m1 = Override(m0, a.pt, WriteVal(a.kind, MapGet(m0, a.pt), a.v))>>,
                      <<"P:C03:ref-creates-path", Stored(post) = Stored(st) \cup Prefixes(a.pt)>>,
